@@ -220,6 +220,67 @@ func (p *prop) judge(k *kase, sel string, rcd *rec, res *scriptResult, o *core.O
 	if sel != "-" && !encoderUsed && len(expected) > 0 {
 		tag("negotiated-but-not-eligible")
 	}
+	// rarer branches of the model, read off the script's shape
+	if strings.HasPrefix(k.mkey, "m:") {
+		tag("general-matcher")
+	}
+	if sel != "-" {
+		committed, sawFinalH, wroteBig := false, false, false
+		for _, op := range k.ops {
+			switch op.kind {
+			case 'h':
+				if k.method == "CONNECT" && op.status >= 200 && op.status <= 299 && !committed {
+					tag("branch:connect-2xx-written-at-once")
+				}
+				if op.status == 304 && !varyHasAE(refHdr) {
+					tag("branch:vary-added-on-304")
+				}
+				if !informational(op.status) {
+					sawFinalH = true
+				}
+			case 'f':
+				if !committed {
+					if k.method == "CONNECT" && !sawFinalH {
+						tag("branch:connect-default-200")
+					} else {
+						tag("branch:flush-swallowed-before-commit")
+					}
+				} else if encoderUsed {
+					tag("branch:flush-through-encoder")
+				}
+			case 'w', 'r':
+				n := 0
+				for _, pl := range op.pay {
+					n += len(pl.data)
+				}
+				if n == 0 {
+					continue
+				}
+				if op.kind == 'r' {
+					switch {
+					case wroteBig && encoderUsed:
+						tag("branch:readfrom-into-open-encoder")
+					case !committed && n > 512:
+						tag("branch:readfrom-sniff-phase-then-rest")
+					case !committed:
+						tag("branch:readfrom-sniff-phase-only")
+					}
+				} else if !committed && k.method == "CONNECT" && !sawFinalH {
+					tag("branch:connect-default-200")
+				}
+				if !committed && encoderUsed {
+					wroteBig = true
+				}
+				committed = true
+			}
+		}
+		if !committed && sawFinalH {
+			tag("branch:close-commits-the-status")
+		}
+		if len(rcd.infos) >= 2 && len(ref.infos) < len(rcd.infos) {
+			tag("branch:1xx-forwarded-again-without-final-status")
+		}
+	}
 
 	// ---- 1. io.Writer contract
 	if res.writeFault != "" {
